@@ -118,5 +118,6 @@ Definition run_c20 (x : sx) : sx :=
   | 3 => of_str (coercePubid (as_bool (nth_sx 2 x)) (as_str arg))
   | 4 => of_str (coerceCharacters (as_bool (nth_sx 2 x)) (as_str arg))
   | 5 => of_list of_str (findall (as_str arg))
+  | 8 => of_list (fun n => of_opt of_str (toXmlName (as_str n))) (as_list arg)
   | _ => of_list (fun c => L [of_bool (bad_first (as_N c)); of_bool (bad_rest (as_N c))]) (as_list arg)
   end.
